@@ -114,6 +114,14 @@ fn run_monitored(su: &Setup, reqs: &[Req]) -> Option<(Final, Mon)> {
             }
             None => {
                 if !presented.is_empty() { mon.gated += 1; }
+                // independent of the simulator's own gating: the processor priority only ever changes at an interrupt entry
+                // (handled above), at an RTI, or by a store to the PSR port (generated programs and ISRs contain none)
+                let w = sim.mem[before.pc].get();
+                let is_rti = w == 0x8000 && before.psr & 0x8000 == 0;
+                if !kbd_or_timer && !is_rti && (after.psr >> 8) & 7 != (before.psr >> 8) & 7 && after.ir == before.ir + 1 {
+                    mon.violation = Some(("priority-changed-outside-entry-or-rti".into(), format!("boundary {} (PC x{:04X}, instruction x{w:04X}): PSR priority went from {} to {} although no interrupt was entered and the instruction is not RTI", mon.boundaries - 1, before.pc, (before.psr >> 8) & 7, (after.psr >> 8) & 7)));
+                    return;
+                }
                 if looks_like_entry && !kbd_or_timer {
                     mon.violation = Some(("entry-not-gated".into(), format!("boundary {} (PC x{:04X}, PSR x{:04X}): presented {presented:?} (none above the current priority) but the step looks like an interrupt entry (PC x{:04X}, PSR x{:04X})", mon.boundaries - 1, before.pc, before.psr, after.pc, after.psr)));
                     return;
@@ -212,6 +220,7 @@ fn run(ctx: &mut Ctx) {
     ctx.cases(0, n, |ctx, rng, _| {
         let su = make_setup(rng, true, false);
         let Some((base, m0)) = run_monitored(&su, &[]) else { ctx.count("setup-failed"); return };
+        if let Some((sig, what)) = &m0.violation { ctx.violation(&format!("{sig}:uninterrupted"), what.clone(), case_json(&su, &[])); return; }
         if base.result != "halt" || m0.boundaries > 400 { ctx.count("base-run-unsuitable"); return; }
         let vs: Vec<u8> = su.isrs.keys().copied().collect();
         let nb = m0.boundaries;
@@ -230,6 +239,7 @@ fn run(ctx: &mut Ctx) {
     ctx.cases(1, n, |ctx, rng, _| {
         let su = make_setup(rng, true, false);
         let Some((base, m0)) = run_monitored(&su, &[]) else { return };
+        if let Some((sig, what)) = &m0.violation { ctx.violation(&format!("{sig}:uninterrupted"), what.clone(), case_json(&su, &[])); return; }
         if base.result != "halt" || m0.boundaries > 400 { ctx.count("base-run-unsuitable"); return; }
         let vs: Vec<u8> = su.isrs.keys().copied().collect();
         let nb = m0.boundaries;
@@ -256,6 +266,7 @@ fn run(ctx: &mut Ctx) {
         let mut su = make_setup(rng, false, false);
         su.prio0 = *rng.pick(&[0u8, 0, 0, 2, 4, 6]);
         let Some((base, m0)) = run_monitored(&su, &[]) else { return };
+        if let Some((sig, what)) = &m0.violation { ctx.violation(&format!("{sig}:uninterrupted"), what.clone(), case_json(&su, &[])); return; }
         if base.result != "halt" { ctx.count("base-run-unsuitable"); return; }
         let vs: Vec<u8> = su.isrs.keys().copied().collect();
         let nb = m0.boundaries;
@@ -269,7 +280,8 @@ fn run(ctx: &mut Ctx) {
     let n = ctx.tier.pick(300, 30_000);
     ctx.cases(3, n, |ctx, rng, idx| {
         let mut su = make_setup(rng, false, true);
-        let Some((base, _)) = run_monitored(&su, &[]) else { return };
+        let Some((base, m0)) = run_monitored(&su, &[]) else { return };
+        if let Some((sig, what)) = &m0.violation { ctx.violation(&format!("{sig}:uninterrupted"), what.clone(), case_json(&su, &[])); return; }
         if base.result != "halt" { ctx.count("base-run-unsuitable"); return; }
         let class;
         if idx % 2 == 0 { su.kbd = (0..1 + rng.usize(5)).map(|_| rng.next() as u8).collect(); su.kbd_ie = true; class = "keyboard"; }
